@@ -84,7 +84,11 @@ func (in *Interp) feltAddMod(a, b *Term) *Term {
 	P := st.ConstBig(257, feltP)
 	s := st.Bin(OpAdd, st.ZExt(a, 257), st.ZExt(b, 257))
 	r := st.Ite(st.Cmp(OpULe, P, s), st.Bin(OpSub, s, P), s)
-	return st.Extract(r, 255, 0)
+	res := st.Extract(r, 255, 0)
+	if !res.IsConst() {
+		st.modadd[res.id] = [2]*Term{a, b}
+	}
+	return res
 }
 
 func (in *Interp) feltSubMod(a, b *Term) *Term {
